@@ -6,6 +6,8 @@ package main
 import (
 	"encoding/json"
 	"fmt"
+	"strings"
+	"sync"
 	"sync/atomic"
 	"time"
 
@@ -18,6 +20,8 @@ import (
 func init() {
 	gens["C19"] = genC19
 	execs["cost"] = execCost
+	execs["servetime"] = execServeTime
+	isolatedOps["servetime"] = true
 }
 
 type countingVerifier struct {
@@ -156,6 +160,16 @@ func genC19(cfg Config, emit Emit) error {
 			emit("cost", []string{mustJSON(sessionWildWorld(k, wild))}, "session-wild", true)
 		}
 	}
+	// a few kilobytes of request must not keep a server busy: chains of up to 40 delegations, valid and
+	// failing, through the server (which renders the failure into the receipt), each within seconds
+	for _, d := range []int{8, 16, 24, 32, 40} {
+		for _, failing := range []bool{true, false} {
+			w := layeredWorld(1, d, failing, 1)
+			w.Services = []ASvc{{Can: w.Desc.Can, Result: "ok"}}
+			w.Invs = []int{w.Inv}
+			emit("servetime", []string{mustJSON(w)}, fmt.Sprintf("served-chain/%v", failing), true)
+		}
+	}
 	maxD := 9
 	if cfg.Thorough() {
 		maxD = 12
@@ -225,4 +239,40 @@ func execCost(a []string) (res Result) {
 		out = "fail"
 	}
 	return Result{Args: []string{mustJSON(&w)}, Impl: fmt.Sprintf("%s:%d", out, n), Extra: map[string]any{"tokens": len(w.Tokens), "millis": el.Milliseconds()}}
+}
+
+// execServeTime: the world's batch through a server; answers "done" when the server replied within 15 s
+func execServeTime(a []string) (res Result) {
+	var w AWorld
+	if err := json.Unmarshal([]byte(a[0]), &w); err != nil {
+		return Result{Impl: "bad-world"}
+	}
+	cw, err := Concretise(&w)
+	if err != nil {
+		return Result{Impl: "concretise-error:" + err.Error()}
+	}
+	log := &runLog{}
+	var calls []handlerCall
+	var mu sync.Mutex
+	srv, err := cw.buildServer(log, &calls, &mu, nil)
+	if err != nil {
+		return Result{Impl: "server-error:" + err.Error()}
+	}
+	done := make(chan string, 1)
+	t0 := time.Now()
+	go func() {
+		defer func() {
+			if r := recover(); r != nil {
+				done <- fmt.Sprintf("panic:%v", r)
+			}
+		}()
+		st, _ := cw.serveBatch(srv, &calls)
+		done <- strings.Join(st, ",")
+	}()
+	select {
+	case <-done:
+		return Result{Impl: "done", Extra: map[string]any{"ms": time.Since(t0).Milliseconds()}}
+	case <-time.After(15 * time.Second):
+		return Result{Impl: "slow", Oracle: fmt.Sprintf("fail:C19-time a request carrying %d delegations kept the server busy for more than 15 s", len(w.Tokens))}
+	}
 }
